@@ -120,6 +120,12 @@ F4 ==
     /\ dev = Cfg([inside_in |-> KeepAcl], NoFn, {B("inside_in", "inside", "in")}, ra, {"inside"})
     /\ tgt = Cfg([inside_in |-> KeepAcl], NoFn, {B("inside_in", "inside", "in")}, rb, {})
 
+(* F4N: destinations with one network address and different prefix lengths (n14 = 10.1.0.0/16, n13 = 10.1.0.0/24) *)
+NRouteSets == {rs \in SUBSET [fam : {"4"}, if : {"inside"}, dst : {"n14", "n13"}, gw : {"gA", "gB"}] : \A r, q \in rs : r.dst = q.dst => r = q}
+F4N ==
+  \E ra, rb \in NRouteSets :
+    /\ dev = Cfg([inside_in |-> KeepAcl], NoFn, {B("inside_in", "inside", "in")}, ra, {"inside"})
+    /\ tgt = Cfg([inside_in |-> KeepAcl], NoFn, {B("inside_in", "inside", "in")}, rb, {})
 \* (no multi-route family for ASA: "ASA doesn't allow two routes to identical destination", cisco/diff.go diffRoutes)
 -----------------------------------------------------------------------------
 (* F7: unmanaged overlay (C07): content outside Netspoc's scope that is     *)
@@ -213,7 +219,7 @@ S1 ==
     /\ dev = Cfg([inside_in |-> a \o tail], NoFn, {B("inside_in", "inside", "in")}, {}, {"inside"})
     /\ tgt = Cfg([inside_in |-> b \o tail], NoFn, {B("inside_in", "inside", "in")}, {}, {})
 
-Init == CASE Fam = "S1" -> S1 [] Fam = "F2S" -> F2S [] Fam = "M2L" -> M2L [] Fam = "F1L" -> F1L [] Fam = "M1" -> M1 [] Fam = "F9" -> F9 [] Fam = "F1" -> F1 [] Fam = "F2" -> F2 [] Fam = "F3" -> F3 [] Fam = "F4" -> F4 [] Fam = "F7" -> F7
+Init == CASE Fam = "S1" -> S1 [] Fam = "F2S" -> F2S [] Fam = "M2L" -> M2L [] Fam = "F1L" -> F1L [] Fam = "M1" -> M1 [] Fam = "F9" -> F9 [] Fam = "F1" -> F1 [] Fam = "F2" -> F2 [] Fam = "F3" -> F3 [] Fam = "F4" -> F4 [] Fam = "F4N" -> F4N [] Fam = "F7" -> F7
 Next == UNCHANGED <<dev, tgt>>
 
 \* non-vacuity of C16: the input offers several equally good matches
